@@ -151,3 +151,54 @@ Example read_body_example :
    then Some [(1, BN 7); (2, BN 9); (3, BB [n2b 107]); (4, BB (map n2b [118;119]))]
    else Some []).
 Proof. vm_compute. reflexivity. Qed.
+
+(* ---- the encoder: what is written behind the response header ----------------- *)
+Definition resp_group (r : response) : N :=
+  match r with
+  | RespError _ _ => 1 | RespGet _ _ _ _ => 2 | RespPlain _ => 3 | RespQuit _ => 4
+  | RespVersion _ _ => 5 | RespCounter _ _ => 6
+  end.
+
+(* the fields of a response: 1 error text, 2 flags, 3 key, 4 value, 5 version, 6 counter *)
+Definition resp_num (r : response) (id : N) : N :=
+  match r with
+  | RespGet _ f _ _ => if id =? 2 then f else 0
+  | RespCounter _ v => if id =? 6 then v else 0
+  | _ => 0
+  end.
+Definition resp_bytes (r : response) (id : N) : bytes :=
+  match r with
+  | RespError _ m => if id =? 1 then m else []
+  | RespGet _ _ k v => if id =? 3 then k else if id =? 4 then v else []
+  | RespVersion _ v => if id =? 5 then v else []
+  | _ => []
+  end.
+
+Definition write_fields (ws : list (N * bwrite)) (r : response) : bytes :=
+  flat_map (fun p => match snd p with
+                     | WrU w => be_enc w (resp_num r (fst p))
+                     | WrBytes => resp_bytes r (fst p)
+                     end) ws.
+
+Definition writes_of (g : N) (t : list (N * list (N * bwrite))) : list (N * bwrite) :=
+  match find (fun p => fst p =? g) t with Some p => snd p | None => [] end.
+
+Ltac enc_solve :=
+  let r := fresh "r" in
+  intro r; destruct r; unfold encode; f_equal;
+  cbv [resp_group writes_of find fst snd N.eqb Pos.eqb write_fields flat_map resp_num resp_bytes be32 be64];
+  rewrite ?app_nil_r; reflexivity.
+
+Lemma encode_data_is_source : src_encode_data_ok = true ->
+  forall r, encode r = encode_rheader (resp_header r) ++ write_fields (writes_of (resp_group r) src_encode_data) r.
+Proof.
+  intros Hok. unfold src_encode_data_ok in Hok.
+  gated Hok (unfold src_encode_data; enc_solve).
+Qed.
+
+Lemma write_data_is_source : src_write_data_ok = true ->
+  forall r, encode r = encode_rheader (resp_header r) ++ write_fields (writes_of (resp_group r) src_write_data) r.
+Proof.
+  intros Hok. unfold src_write_data_ok in Hok.
+  gated Hok (unfold src_write_data; enc_solve).
+Qed.
